@@ -64,7 +64,7 @@ func (g *gctx) nspec(kind int) *NSpec {
 	if kind == 2 {
 		sp.K1, sp.K2 = g.key(), g.key()
 	}
-	if kind == 3 {
+	if kind == 3 || kind == 4 {
 		sp.K1 = g.key()
 	}
 	return sp
@@ -186,7 +186,11 @@ func (g *gctx) genNode(curT bool, curKeys []int, wantT bool) stageOut {
 	g.budget--
 	wr := g.wrap(curT, curKeys, wantT, true)
 	w, iin, iout, forced := wr.w, wr.in, wr.out, wr.forced
-	sp := g.nspec(kindOf(iin, iout))
+	kind := kindOf(iin, iout)
+	if kind == 3 && g.nestOK() && g.r.Chance(1, 3) {
+		kind = 4 // the input map itself under a key: a nested map
+	}
+	sp := g.nspec(kind)
 	sp.TIn = wr.inTyped
 	if w == nil || w.Out == nil && w.Post == nil {
 		if g.inject == "wrongtype" && !g.injected {
@@ -205,10 +209,21 @@ func (g *gctx) genNode(curT bool, curKeys []int, wantT bool) stageOut {
 		own = []int{sp.K1, sp.K2}
 	case 3:
 		own = []int{sp.K1}
+	case 4:
+		own = []int{sp.K1}
+		// what sits under the key: the node's input map
+		inner := wr.inKeys
+		if w == nil || w.In == nil && w.Pre == nil {
+			inner = g.strKeys(curKeys)
+		} else if w.Pre != nil {
+			inner = []int{w.Pre.K1}
+		}
+		g.setShape(sp.K1, sp.TIn, inner)
 	}
 	if w != nil && w.Out != nil && iout {
 		// a map under an output key: half of the time the lambda is declared with map[string]string
-		sp.TOut = g.r.Chance(1, 2)
+		// (kind 4 emits a map of maps: map[string]any)
+		sp.TOut = sp.Kind != 4 && g.r.Chance(1, 2)
 		g.setShape(*w.Out, sp.TOut, own)
 	}
 	keys := forced
@@ -292,7 +307,7 @@ func possKeys(p *Prog, in map[int]bool) map[int]bool {
 			switch p.N.Kind {
 			case 2:
 				return map[int]bool{p.N.K1: true, p.N.K2: true}
-			case 3:
+			case 3, 4:
 				return map[int]bool{p.N.K1: true}
 			}
 			return nil
@@ -613,6 +628,9 @@ func (engine) Generate(r *lib.Rng, tier string, i int) any {
 		} else if sp.outMap() && r.Chance(1, 3) {
 			sp.TOut = true // declared with map[string]string
 		}
+		if sp.Kind == 3 && r.Chance(1, 3) {
+			sp.Kind, sp.TOut = 4, false
+		}
 		if sp.inMap() && r.Chance(1, 3) {
 			sp.TIn = true
 			g.inject = "flat" // a map[string]string input has string values only
@@ -773,6 +791,10 @@ func (g *gctx) outMapFor(rawT bool, allKeys []int, nextT bool, forceTo bool) (*F
 		// map to map. Towards a fan-in / re-join (forceTo) the edge must write fields of its own.
 		roll := g.r.Intn(20)
 		switch {
+		case !forceTo && len(umaps) > 0 && g.inject == "" && g.r.Chance(1, 2):
+			// FromField of a field that holds a map: the successor's input is that map
+			k := umaps[g.r.Intn(len(umaps))]
+			return &FMap{Take: &k, TakeMap: true}, true, g.kmap[k].keys
 		case len(allKeys) > 0 && (forceTo && (roll < 15 || !g.nestOK()) || !forceTo && roll < 8):
 			// MapFields: some of the fields, each to a field of its own; a field that holds a map
 			// arrives as a nested map
@@ -790,6 +812,7 @@ func (g *gctx) outMapFor(rawT bool, allKeys []int, nextT bool, forceTo bool) (*F
 				to := g.key()
 				if sh := g.kmap[from]; sh != nil {
 					g.setShape(to, sh.typed, sh.keys)
+					f.mapValued = true
 				}
 				f.To = append(f.To, FEntry{From: &from, To: to})
 				keys = append(keys, to)
@@ -800,10 +823,6 @@ func (g *gctx) outMapFor(rawT bool, allKeys []int, nextT bool, forceTo bool) (*F
 			to := g.key()
 			g.setShape(to, false, strs)
 			return &FMap{To: []FEntry{{To: to}}}, true, []int{to}
-		case len(umaps) > 0 && g.inject == "" && roll < 16:
-			// FromField of a field that holds a map: the successor's input is that map
-			k := umaps[g.r.Intn(len(umaps))]
-			return &FMap{Take: &k, TakeMap: true}, true, g.kmap[k].keys
 		}
 	}
 	return nil, rawT, allKeys
